@@ -88,6 +88,10 @@ def build(doc, r: random.Random):
             "bad_value_nondict": {KA: r.choice(["x", None, 5, [SIG], SIG])},
             "bad_gpg_headers": {KA: r.choice([{"other_headers": "", "signature": SIG}, {"other_headers": "AB", "signature": SIG},
                                               {"other_headers": "abc", "signature": SIG}, {"other_headers": hdr, "signature": SIG, "see_also": "f0"}])},
+            "hex_as_char_list": {KA: r.choice([{"signature": list(SIG)}, {"other_headers": list(hdr), "signature": SIG}, {"other_headers": ["0", "4"], "signature": SIG},
+                                               {"other_headers": dict.fromkeys("04"), "signature": SIG}, {"signature": dict.fromkeys(SIG)},
+                                               {"other_headers": hdr, "signature": SIG, "see_also": list("f0" * 20)},
+                                               {"other_headers": hdr, "signature": SIG, "see_also": {"%02d" % i: None for i in range(40)}}])},
             "nonkey_name_ok_value": {r.choice(["junk", "", KA.upper(), KA + " "]): {"signature": SIG}}}[doc["sigvals"]]
     env = {"signatures": sigs, "signed": signed_v}
     e = doc["env"]
